@@ -843,7 +843,8 @@ impl Scenario for Cw1Scen {
         if !self.inited && self.wide {
             // few admins (an admin cannot be its own subkey), mostly mutable
             self.mode = rng.below(2);
-            let n = 1 + rng.below(2) as usize;
+            // now and then an admin set beyond one page of anything (31–35 admins): every listed admin is an admin
+            let n = if rng.chance(1, 4) { 31 + rng.below(5) as usize } else { 1 + rng.below(2) as usize };
             let admins: Vec<String> = (0..n).map(|i| format!("+{}", self.pool[i])).collect();
             return format!("inst admins={} mutable={}", admins.join(","), rng.chance(9, 10));
         }
